@@ -147,38 +147,88 @@ def analyse(fn, facts, E, is_prim_call, keys_by_sig):
             break
         if verdict is None:
             verdict = Site(fn, n, False, "result of %s discarded" % callee_name(n))
+        if verdict.acc and verdict.status is True and not any(x[1] in ("+=", "initcall", "=") for x in accs.get(verdict.acc, [])):
+            accs.setdefault(verdict.acc, []).append((order[id(n)], "initcall"))
         sites.append(verdict)
 
-    # a partial sum that is added into another accumulator afterwards (`written += pair_written`) is part of that one
+    # ---- carriers: locals that hold emitted byte counts; drains: a carrier added into another one
     def _terms(e_):
         u_ = unwrap(e_)
         if isinstance(u_, dict) and u_.get("k") == "Bin" and u_.get("op") == "+":
             return _terms(u_["lhs"]) + _terms(u_["rhs"])
         return [u_]
-    drained = {}
-    for n in ir.walk(fn["body"]):
-        tgt = None
-        srcs = []
-        if n.get("k") == "Bin" and n.get("op") in ("+=", "="):
-            lp = path(n["lhs"])
-            if lp and len(lp) == 1 and lp[0].startswith("l:"):
-                ts = _terms(n["rhs"])
-                if n["op"] == "+=" or any(isinstance(t_, dict) and path(t_) == lp for t_ in ts):
-                    tgt = lp[0]
-                    srcs = [path(t_) for t_ in ts if isinstance(t_, dict)]
-        if tgt is None:
+
+    def is_carrier(k_):
+        return k_ in accs and any(x[1] in ("+=", "initcall", "=") for x in accs[k_])
+    env_g = Env(fn["body"])
+    guard_of = {}
+    for st, g, loops in ir.guarded_statements(fn["body"], env_g):
+        if st.get("k") in ("IfCond", "LoopHead", "SwitchHead"):
             continue
-        for sp in srcs:
-            if sp and len(sp) == 1 and sp[0] != tgt and sp[0] in accs and any(x[1] in ("+=", "initcall", "=") for x in accs[sp[0]]):
-                later = [x for x in accs[sp[0]] if x[0] > order[id(n)]]
-                if not later:
-                    drained[sp[0]] = tgt
-                    accs.setdefault(tgt, []).append((order[id(n)], "+="))
+        for x in ir.walk(st):
+            guard_of[id(x)] = g
+    drains = []          # (order, source carrier, target local)
+    changed = True
+    while changed:
+        changed = False
+        for n in ir.walk(fn["body"]):
+            tgt = None
+            srcs = []
+            if n.get("k") == "Bin" and n.get("op") in ("+=", "="):
+                lp = path(n["lhs"])
+                if lp and len(lp) == 1 and lp[0].startswith("l:"):
+                    ts = _terms(n["rhs"])
+                    if n["op"] == "+=" or any(isinstance(t_, dict) and path(t_) == lp for t_ in ts):
+                        tgt = lp[0]
+                        srcs = [path(t_) for t_ in ts if isinstance(t_, dict)]
+                    elif all(isinstance(t_, dict) and ((path(t_) and len(path(t_)) == 1 and is_carrier(path(t_)[0])) or const_value(t_) == 0)
+                             for t_ in ts) and any(path(t_) for t_ in ts if isinstance(t_, dict)):
+                        # plain assignment of a sum of carriers: the target takes them over
+                        tgt = lp[0]
+                        srcs = [path(t_) for t_ in ts if isinstance(t_, dict)]
+            elif n.get("k") == "Decl":
+                for v in n.get("vars", []):
+                    if "n" in v and v.get("init") is not None:
+                        ts = _terms(v["init"])
+                        ps = [path(t_) for t_ in ts if isinstance(t_, dict)]
+                        if any(p_ and len(p_) == 1 and is_carrier(p_[0]) for p_ in ps):
+                            tgt = "l:%s#%s" % (v["n"], v["id"])
+                            srcs = ps
+            if tgt is None:
+                continue
+            for sp in srcs:
+                if sp and len(sp) == 1 and sp[0] != tgt and is_carrier(sp[0]):
+                    ev_ = (order[id(n)], sp[0], tgt)
+                    if ev_ not in drains:
+                        drains.append(ev_)
+                        accs.setdefault(tgt, []).append((order[id(n)], "+="))
+                        changed = True
+    drained = {}
+    for (o_, src_, tgt_) in drains:
+        later = [x for x in accs[src_] if x[0] > o_ and x[1] in ("+=", "=", "initcall")]
+        if not later:
+            drained[src_] = tgt_
 
     # returns
     rets = []
     first_emit = min([order[id(s.call)] for s in sites], default=None)
     real_accs = set(k for k, v in accs.items() if any(x[1] in ("+=", "initcall", "=") for x in v))
+
+    def contradict(g1, g2):
+        a1, a2 = ir.conjuncts(g1), ir.conjuncts(g2)
+        return any(ir.f_not(x) in a2 for x in a1) or any(ir.f_not(x) in a1 for x in a2)
+
+    def covered_by(term_keys, upto):
+        """carriers whose content is part of the value formed from term_keys at position upto"""
+        reach = set(term_keys)
+        grew = True
+        while grew:
+            grew = False
+            for (o_, src_, tgt_) in drains:
+                if tgt_ in reach and src_ not in reach and o_ <= upto:
+                    reach.add(src_)
+                    grew = True
+        return reach
 
     def ret_ok(e):
         u = unwrap(e)
@@ -200,6 +250,13 @@ def analyse(fn, facts, E, is_prim_call, keys_by_sig):
             return (False if (a is False or b is False) else None), "sum with an uncounted part: %s" % show(u)
         return False, show(u)
 
+    upd_guard = {}
+    for n_ in ir.walk(fn["body"]):
+        if id(n_) in guard_of and id(n_) in order:
+            for k_, evs_ in accs.items():
+                for x in evs_:
+                    if x[0] == order[id(n_)]:
+                        upd_guard[(k_, x[0])] = guard_of[id(n_)]
     ret_guards = {}
     env_r = Env(fn["body"])
     for st, g, loops in ir.guarded_statements(fn["body"], env_r):
@@ -213,18 +270,35 @@ def analyse(fn, facts, E, is_prim_call, keys_by_sig):
             continue
         ok, why = ret_ok(e)
         if ok is True:
-            rets.append((n, True, why))
+            tkeys = [path(t_)[0] for t_ in _terms(e) if isinstance(t_, dict) and path(t_) and len(path(t_)) == 1]
+            reach = covered_by(tkeys, order[id(n)])
+            g_ret = ret_guards.get(id(n), ("T",))
+            lost = []
+            for k_ in sorted(real_accs):
+                if k_ in reach:
+                    continue
+                ups = [x for x in accs[k_] if x[1] in ("+=", "initcall", "=") and x[0] < order[id(n)]]
+                ups = [x for x in ups if not contradict(upd_guard.get((k_, x[0]), ("T",)), g_ret)]
+                if ups:
+                    lost.append(k_.split("#")[0][2:])
+            if lost:
+                rets.append((n, False, "the byte counts held in %s are not part of the value returned here" % ", ".join(sorted(set(lost)))))
+            else:
+                rets.append((n, True, why))
             continue
         cv = const_value(e)
         before = first_emit is None or order[id(n)] < first_emit
         g_here = ret_guards.get(id(n), ("T",))
         acc_zero = any(a[0] == "not" and a[1][0] == "nz" and ("%s" % a[1][1]) in real_accs for a in ir.conjuncts(g_here))
+        exclusive = all(contradict(guard_of.get(id(s_.call), ("T",)), g_here) for s_ in sites) if sites else True
         if cv == 0 and before:
             rets.append((n, True, "returns 0 before any emission"))
+        elif cv == 0 and exclusive:
+            rets.append((n, True, "returns 0 on a path that excludes every emission"))
         elif cv == 0 and acc_zero:
             rets.append((n, True, "returns 0 on the path where the accumulator is 0"))
         elif cv is not None:
             rets.append((n, False, "returns constant %s on a path that has already emitted bytes" % cv))
         else:
             rets.append((n, False, "returns %s, which is not the byte accumulator" % why))
-    return sites, rets, set(a for a in real_accs if a not in drained)
+    return sites, rets, set()
